@@ -875,122 +875,3 @@ Proof.
   assert (Hlt : jmk p <? P = true) by (apply Nat.ltb_lt; apply Hjm; exact Hp). rewrite Hlt. reflexivity.
 Qed.
 
-(** ** The original code (all three repairs off): machine-checked counter-examples *)
-
-Definition one_part : component := mkcomp false 1.
-
-(** D1: 2 ranks, 3 non-vanishing components.  Colour 0 = {rank 0} computes two components, colour 1 = {rank 1} one;
-    every compute issues MPI_Barrier(MPI_COMM_WORLD), so the two ranks issue different sequences on the world
-    communicator ... *)
-Theorem collectives_match_refuted : exists P comps clear jm,
-  let col := float_colouring P (length comps) in
-  ~ collectives_match col P (split_trace none_fixed col P comps clear jm).
-Proof.
-  exists 2, [one_part; one_part; one_part], true, (fun _ _ => 0). cbv zeta. intros [H _].
-  specialize (H World 0 1). vm_compute in H.
-  specialize (H (or_introl eq_refl) (or_intror (or_introl eq_refl))). discriminate.
-Qed.
-
-(** ... and the run deadlocks in the blocking semantics: a reachable state in which ranks still have collectives
-    to issue and no communicator can proceed. *)
-Theorem split_deadlock_refuted : exists P comps clear jm sched,
-  let col := float_colouring P (length comps) in
-  match coll_run col P sched (split_trace none_fixed col P comps clear jm) with
-  | Some st => all_done P st = false /\ forall cm, coll_step col P cm st = None
-  | None => False
-  end.
-Proof.
-  exists 2, [one_part; one_part; one_part], true, (fun _ _ => 0).
-  eexists (snd (fst (coll_exec (float_colouring 2 3) 2 100
-                        (split_trace none_fixed (float_colouring 2 3) 2 [one_part; one_part; one_part] true (fun _ _ => 0))))).
-  vm_compute. split; [reflexivity|]. intros [|[|[|c]]]; reflexivity.
-Qed.
-
-(** D2: 2 ranks, 1 component with 1 part, non-empty frequency list: both ranks have colour 0, the reduction goes to
-    rank 0 but the broadcast root is rank 1: every rank returns a table of zeros. *)
-Theorem reduce_root_refuted : exists P comps clear jm,
-  let col := float_colouring P (length comps) in
-  forall r, r < P -> exists st, nth_error (split_state none_fixed col P comps clear true jm r) 0 = Some st /\
-                                tab st = TData [] /\ ~ is_full_sum 1 (tab st).
-Proof.
-  exists 2, [one_part], true, (fun _ _ => 0). cbv zeta. intros r Hr.
-  assert (Hnot : ~ is_full_sum 1 (TData [])).
-  { intros [l [E Hp]]. inversion E. subst l. apply Permutation_nil in Hp. discriminate. }
-  destruct r as [|[|r]]; [| |lia]; eexists; (split; [vm_compute; reflexivity|]); (split; [reflexivity|exact Hnot]).
-Qed.
-
-(** D3: 2 ranks, 2 components, terms kept: rank 0 cannot evaluate component 1 (and rank 1 not component 0),
-    although computeAll returned it there and its terms were received. *)
-Theorem status_refuted : exists P comps jm r k c st,
-  let col := float_colouring P (length comps) in
-  r < P /\ nth_error comps k = Some c /\
-  nth_error (split_state none_fixed col P comps false true jm r) k = Some st /\
-  has_all_terms c st = true /\ evaluable c st = false.
-Proof.
-  exists 2, [one_part; one_part], (fun _ _ => 0), 0, 1, one_part. eexists. cbv zeta.
-  split; [lia|]. split; [reflexivity|]. split; [vm_compute; reflexivity|]. split; reflexivity.
-Qed.
-
-(** the same three inputs with all repairs on (sanity: the repaired model is not vacuous on them) *)
-Example repaired_on_the_witnesses :
-  let col3 := float_colouring 2 3 in let col1 := float_colouring 2 1 in let col2 := float_colouring 2 2 in
-  fst (fst (coll_exec col3 2 100 (split_trace all_fixed col3 2 [one_part; one_part; one_part] true (fun _ _ => 0)))) = true /\
-  map (fun r => map tab (split_state all_fixed col1 2 [one_part] true true (fun _ _ => 0) r)) [0; 1] = [[TData [0]]; [TData [0]]] /\
-  map (fun r => map (evaluable one_part) (split_state all_fixed col2 2 [one_part; one_part] false true (fun _ _ => 0) r)) [0; 1]
-    = [[true; true]; [true; true]].
-Proof. vm_compute. repeat split. Qed.
-
-(** ** OpenMP loop: any schedule gives the sequential table *)
-
-Section OMPProofs.
-Variable V : Type.
-Variable add : V -> V -> V.
-Variable val : nat -> V.
-
-Lemma nth_error_set_nth_other : forall (d : list V) a b v, a <> b -> nth_error (set_nth V d a v) b = nth_error d b.
-Proof.
-  intros d. induction d as [|x d IH]; intros a b v Hne; [destruct a; reflexivity|].
-  destruct a as [|a], b as [|b]; simpl; try reflexivity; [congruence|]. apply IH. congruence.
-Qed.
-
-Lemma set_nth_comm : forall (d : list V) a b v w, a <> b ->
-  set_nth V (set_nth V d a v) b w = set_nth V (set_nth V d b w) a v.
-Proof.
-  intros d. induction d as [|x d IH]; intros a b v w Hne; [destruct a, b; reflexivity|].
-  destruct a as [|a], b as [|b]; simpl; try reflexivity; [congruence|]. f_equal. apply IH. congruence.
-Qed.
-
-(** iterations on different cells commute: iteration w reads and writes cell w only *)
-Lemma iter_comm : forall d a b, iter V add val (iter V add val d a) b = iter V add val (iter V add val d b) a.
-Proof.
-  intros d a b. destruct (Nat.eq_dec a b) as [->|Hne]; [reflexivity|].
-  unfold iter. destruct (nth_error d a) as [x|] eqn:Ea, (nth_error d b) as [y|] eqn:Eb.
-  - rewrite nth_error_set_nth_other by exact Hne. rewrite Eb.
-    rewrite nth_error_set_nth_other by congruence. rewrite Ea. apply set_nth_comm. exact Hne.
-  - rewrite nth_error_set_nth_other by exact Hne. rewrite Eb, Ea. reflexivity.
-  - rewrite Eb. rewrite nth_error_set_nth_other by congruence. rewrite Ea. reflexivity.
-  - rewrite Eb, Ea. reflexivity.
-Qed.
-
-(** C06 omp_schedule_independent: the table after the loop does not depend on the order in which the iterations
-    take effect -- any two schedules that are permutations of each other give the same table. *)
-Theorem omp_schedule_independent : forall s s', Permutation s s' ->
-  forall d, run_schedule V add val s d = run_schedule V add val s' d.
-Proof.
-  intros s s' Hp. induction Hp as [|x l l' Hp IH|x y l|l l' l'' Hp1 IH1 Hp2 IH2]; intros d.
-  - reflexivity.
-  - simpl. apply IH.
-  - simpl. rewrite iter_comm. reflexivity.
-  - rewrite IH1. apply IH2.
-Qed.
-
-(** in particular: any assignment of the iterations 0..n-1 to threads ([chunks], one list per thread, every
-    iteration in exactly one of them) executed in any interleaving [sched] gives the sequential result *)
-Corollary omp_any_partition : forall (chunks : list (list nat)) sched n d,
-  Permutation (concat chunks) (seq 0 n) -> Permutation sched (concat chunks) ->
-  run_schedule V add val sched d = run_schedule V add val (seq 0 n) d.
-Proof.
-  intros chunks sched n d H1 H2. apply omp_schedule_independent. eapply Permutation_trans; eassumption.
-Qed.
-
-End OMPProofs.
